@@ -124,7 +124,9 @@ class Sandbox:
         gen.write_plotfile(gen.gen_model(**kw4), self.plt4)
         self.chk = os.path.join(self.ind, "chk00005")
         ck = dict(nspecies=2, nghost=1, nlevels=1 if tiny else 2, bf=2 if tiny else 4, base_blocks=(1, 1) if tiny else (1, 2))
-        chkgen.gen_chk(seed, self.chk, **ck)
+        # every other checkpoint holds cells whose species are all exactly zero: with the (default) rescaling of the
+        # mass fractions the conversion meets 0 / 0 there - whatever it does about it must not eat an I/O error
+        chkgen.gen_chk(seed, self.chk, zero_y=(seed % 2 == 1), **ck)
         self.recipe = os.path.join(self.root, "recipe_sq.py")      # not an input tree: a user script
         with open(self.recipe, "w") as f:
             f.write(RECIPE)
